@@ -43,12 +43,12 @@ type CounterExample struct {
 }
 
 type Frame struct {
-	fn     *ssa.Function
-	env    map[ssa.Value]Value
-	defers []func()
-	visits map[*ssa.BasicBlock]int
+	fn       *ssa.Function
+	env      map[ssa.Value]Value
+	defers   []func()
+	visits   map[*ssa.BasicBlock]int
 	lastFork map[*ssa.BasicBlock]int
-	result Value
+	result   Value
 }
 
 type pcEntry struct {
@@ -85,6 +85,10 @@ type Exec struct {
 	tags       []tagCond
 	pcSet      map[string]bool
 	modelCtx   *bctx
+	lenModel   map[string]*Term
+	guess      map[string]string
+	nPC        int
+	inGuard    bool
 	forkCount  int
 	memo       map[string]*Term
 	upgrade    bool
@@ -95,24 +99,27 @@ type Exec struct {
 }
 
 type PathResult struct {
-	Stop         pathStop
-	Obligations  int
-	Discharged   int
-	Trivial      int
-	Inconcl      []string
-	CEs          []*CounterExample
-	Reached      []string
-	Steps        int
-	Decisions    []int
-	Summary      string
-	Funcs        map[string]int
-	Effects      []string
-	StageA       int
-	StageB       int
-	BoundedUnsat int
-	BoundedNA    int
-	CacheHits    int
-	ArithOnly    int
+	Stop          pathStop
+	Obligations   int
+	Discharged    int
+	Trivial       int
+	Inconcl       []string
+	CEs           []*CounterExample
+	Reached       []string
+	Steps         int
+	Decisions     []int
+	Summary       string
+	Funcs         map[string]int
+	Effects       []string
+	StageA        int
+	StageB        int
+	BoundedUnsat  int
+	BoundedNA     int
+	CacheHits     int
+	ArithOnly     int
+	StageL        int
+	StageG        int
+	BoundTooSmall int
 }
 
 func (e *Exec) stop(kind, format string, a ...interface{}) {
@@ -402,6 +409,138 @@ func idealAxioms(asserts []*Term) []*Term {
 	return out
 }
 
+// lengthAbstraction: applicable when every string-sorted subterm is a variable
+// that occurs only as the argument of str.len.
+func lengthAbstraction(asserts []*Term) ([]*Term, map[string]*Term, bool) {
+	lenVars := map[string]*Term{}
+	eqVars := map[string]*Term{}
+	ok := true
+	lenOf := func(name string) *Term {
+		v, seen := lenVars[name]
+		if !seen {
+			v = mkVar("len!"+name, SInt)
+			lenVars[name] = v
+		}
+		return v
+	}
+	var tr func(t *Term) *Term
+	tr = func(t *Term) *Term {
+		if !ok {
+			return t
+		}
+		if t.sort == SStr || t.sort == SRe {
+			ok = false
+			return t
+		}
+		if t.op == "str.len" {
+			a := t.args[0]
+			if a.op != "var" {
+				ok = false
+				return t
+			}
+			return lenOf(a.name)
+		}
+		if t.op == "=" && t.args[0].sort == SStr {
+			// equality between two otherwise unconstrained string variables (or with ""):
+			// an equivalence relation compatible with the lengths
+			x, y := t.args[0], t.args[1]
+			if y.op == "str" && y.sval == "" && x.op == "var" {
+				return mkEq(lenOf(x.name), mkInt(0))
+			}
+			if x.op == "str" && x.sval == "" && y.op == "var" {
+				return mkEq(lenOf(y.name), mkInt(0))
+			}
+			if x.op != "var" || y.op != "var" {
+				ok = false
+				return t
+			}
+			a, b := x.name, y.name
+			if a > b {
+				a, b = b, a
+			}
+			k := a + "\x00" + b
+			v, seen := eqVars[k]
+			if !seen {
+				v = mkVar("eq!"+a+"!"+b, SBool)
+				eqVars[k] = v
+				lenOf(a)
+				lenOf(b)
+			}
+			return v
+		}
+		if t.isConst() || t.op == "var" || t.op == "raw" || len(t.args) == 0 {
+			return t
+		}
+		args := make([]*Term, len(t.args))
+		ch := false
+		for i, a := range t.args {
+			args[i] = tr(a)
+			if args[i] != a {
+				ch = true
+			}
+		}
+		if !ch {
+			return t
+		}
+		n := *t
+		n.args = args
+		n.key = ""
+		if t.op == "int2bv" || t.op == "extract" || t.op == "zero_extend" || t.op == "sign_extend" {
+			n.key = strings.Replace(t.String(), t.args[0].String(), args[0].String(), 1)
+		}
+		return &n
+	}
+	var out []*Term
+	for _, a := range asserts {
+		out = append(out, tr(a))
+		if !ok {
+			return nil, nil, false
+		}
+	}
+	for _, n := range sortedKeys(lenVars) {
+		out = append(out, mkGe(lenVars[n], mkInt(0)))
+	}
+	// equality axioms: equal strings have equal lengths; empty strings are equal; transitivity
+	names := sortedKeys(eqVars)
+	if len(names) > 40 {
+		return nil, nil, false
+	}
+	eqOf := func(a, b string) *Term {
+		if a > b {
+			a, b = b, a
+		}
+		return eqVars[a+"\x00"+b]
+	}
+	inEq := map[string]bool{}
+	for _, k := range names {
+		ab := strings.SplitN(k, "\x00", 2)
+		inEq[ab[0]], inEq[ab[1]] = true, true
+		la, lb := lenVars[ab[0]], lenVars[ab[1]]
+		out = append(out, mkImplies(eqVars[k], mkEq(la, lb)))
+		out = append(out, mkImplies(mkAnd(mkEq(la, mkInt(0)), mkEq(lb, mkInt(0))), eqVars[k]))
+	}
+	vs := sortedKeys(inEq)
+	for _, a := range vs {
+		for _, b := range vs {
+			for _, c := range vs {
+				if a < b && b < c {
+					ab, bc, ac := eqOf(a, b), eqOf(b, c), eqOf(a, c)
+					if ab != nil && bc != nil && ac != nil {
+						out = append(out, mkImplies(mkAnd(ab, bc), ac), mkImplies(mkAnd(ab, ac), bc), mkImplies(mkAnd(ac, bc), ab))
+					} else if (ab != nil && bc != nil) || (ab != nil && ac != nil) || (ac != nil && bc != nil) {
+						// a missing pair leaves the relation unconstrained: not exact
+						return nil, nil, false
+					}
+				}
+			}
+		}
+	}
+	for k, v := range eqVars {
+		lenVars["\x00eq\x00"+k] = v
+	}
+	return out, lenVars, true
+}
+
 func hasStrings(ts []*Term) bool {
 	var walk func(t *Term) bool
 	walk = func(t *Term) bool {
@@ -434,6 +573,9 @@ func hasStrings(ts []*Term) bool {
 //	  (short limit), and as the only stage when B is not applicable.
 func (e *Exec) solveOpen(asserts []*Term, declare []*Term, upgrade bool) string {
 	e.modelCtx = nil
+	e.lenModel = nil
+	e.guess = nil
+	nOrig := len(asserts)
 	asserts = append(asserts, idealAxioms(asserts)...)
 	asserts = append(asserts, decodeAxioms(asserts)...)
 	strs := hasStrings(asserts)
@@ -450,6 +592,37 @@ func (e *Exec) solveOpen(asserts []*Term, declare []*Term, upgrade bool) string 
 	if !strs {
 		return stageA(e.h.QueryTimeout)
 	}
+	// Stage G: guess-and-check (definitive "sat" whatever the string lengths)
+	if e.h.Guess {
+		if gm := e.guessModel(asserts); gm != nil {
+			e.res.StageG++
+			e.guess = gm
+			e.solver.Push()
+			return "sat"
+		}
+	}
+	// Stage L: if strings occur only as str.len of variables, lengths are free
+	// non-negative integers (exact: any length is realisable by some string).
+	if abs, lenVars, ok := lengthAbstraction(asserts); ok {
+		e.solver.Push()
+		for _, d := range declare {
+			if d.sort != SStr {
+				e.solver.declareFor(d)
+			}
+		}
+		for _, c := range abs {
+			e.solver.Assert(c)
+		}
+		e.solver.Only("z3new")
+		r := e.solver.CheckT(e.h.QueryTimeout)
+		if r != "unknown" {
+			e.res.StageL++
+			e.lenModel = lenVars
+			return r
+		}
+		e.solver.Pop()
+	}
+	e.lenModel = nil
 	all, ctx, err := translateBounded(e.h.StrLen, asserts, declare)
 	if err != nil {
 		e.res.BoundedNA++
@@ -479,6 +652,63 @@ func (e *Exec) solveOpen(asserts []*Term, declare []*Term, upgrade bool) string 
 		e.modelCtx = ctx
 		return r
 	case "unsat":
+		// Vacuity guard: a bounded "unsat" of pc ∧ extra means something only if
+		// the pc part itself has models within the string bound; otherwise the
+		// bound is too small for this path and the unbounded encoding must decide.
+		if e.nPC > 0 && e.nPC < nOrig && !e.inGuard {
+			e.solver.Pop()
+			e.inGuard = true
+			pcOnly := append([]*Term{}, asserts[:e.nPC]...)
+			pcOnly = append(pcOnly, idealAxioms(pcOnly)...)
+			pcOnly = append(pcOnly, decodeAxioms(pcOnly)...)
+			g := "unknown"
+			gkey := fmt.Sprintf("guard|%d|", e.h.StrLen)
+			{
+				ks := make([]string, len(pcOnly))
+				for i, a := range pcOnly {
+					ks[i] = a.String()
+				}
+				sort.Strings(ks)
+				hh := sha256.New()
+				for _, k := range ks {
+					hh.Write([]byte(k))
+					hh.Write([]byte{0})
+				}
+				gkey += string(hh.Sum(nil))
+			}
+			if v, ok := e.w.qcache.Load(gkey); ok {
+				g = v.(string)
+			} else if gall, _, gerr := translateBounded(e.h.StrLen, pcOnly, nil); gerr == nil {
+				e.solver.Push()
+				gs := map[string]bool{}
+				for _, c := range gall {
+					if !gs[c.String()] {
+						gs[c.String()] = true
+						e.solver.Assert(c)
+					}
+				}
+				e.solver.Only("z3new")
+				g = e.solver.CheckT(e.h.QueryTimeout)
+				e.solver.Pop()
+				if g != "unknown" {
+					e.w.qcache.Store(gkey, g)
+				}
+			}
+			e.inGuard = false
+			e.modelCtx = nil
+			e.lenModel = nil
+			if g != "sat" {
+				e.res.BoundTooSmall++
+				r2 := stageA(e.h.QueryTimeout)
+				if r2 != "unknown" {
+					e.res.StageA++
+				} else {
+					e.res.Inconcl = append(e.res.Inconcl, fmt.Sprintf("string bound %d admits no model of the path condition and the unbounded query is unknown at %s", e.h.StrLen, e.where()))
+				}
+				return r2
+			}
+			e.solver.Push() // restore the scope discipline: exactly one scope open
+		}
 		if upgrade {
 			e.solver.Pop()
 			if stageA(e.h.StageATimeout) == "unsat" {
@@ -584,7 +814,10 @@ func (e *Exec) arithOnlyUnsat(neg []*Term) bool {
 // openQuery asks whether pc ∧ extra is satisfiable and leaves the solver
 // scope open (for model extraction); closeQuery must follow.
 func (e *Exec) openQuery(extra []*Term, mode int) string {
-	as := append(e.selectPC(extra, mode), extra...)
+	pcs := e.selectPC(extra, mode)
+	as := append(pcs, extra...)
+	e.nPC = len(pcs)
+	defer func() { e.nPC = 0 }()
 	return e.solveOpen(as, nil, e.upgrade)
 }
 
@@ -609,7 +842,9 @@ func (e *Exec) sat(extra []*Term, mode int) string {
 		e.res.CacheHits++
 		return v.(string)
 	}
+	e.nPC = len(as) - len(extra)
 	r := e.solveOpen(as, nil, e.upgrade)
+	e.nPC = 0
 	e.closeQuery()
 	if r != "unknown" {
 		e.w.qcache.Store(key, r)
@@ -634,11 +869,112 @@ func (e *Exec) openModelQuery(extra []*Term) string {
 		as = append(as, p.t)
 	}
 	as = append(as, extra...)
+	e.nPC = len(e.pc)
+	defer func() { e.nPC = 0 }()
 	return e.solveOpen(as, decl, false)
 }
 
 // modelValues evaluates terms in the model of the open query.
 func (e *Exec) modelValues(ts []*Term) map[string]string {
+	if e.guess != nil {
+		res := map[string]string{}
+		for _, t := range ts {
+			if t.op == "var" {
+				if v, ok := e.guess[t.name]; ok {
+					res[t.String()] = v
+					continue
+				}
+				switch t.sort {
+				case SStr:
+					res[t.String()] = "\"\""
+				case SInt:
+					res[t.String()] = "0"
+				case SBool:
+					res[t.String()] = "false"
+				}
+				continue
+			}
+			// tag conditions etc.: evaluate under the candidate
+			func() {
+				defer func() { recover() }()
+				env := &evalEnv{vars: map[string]cval{}, re: newBctx(0, "g.")}
+				for n, txt := range e.guess {
+					if strings.HasPrefix(txt, "\"") {
+						s, _ := decodeSMTString(txt)
+						env.vars[n] = cval{s: s}
+					} else if txt == "true" || txt == "false" {
+						env.vars[n] = cval{b: txt == "true"}
+					} else {
+						x := new(big.Int)
+						tt := strings.ReplaceAll(strings.ReplaceAll(strings.ReplaceAll(txt, "(- ", "-"), ")", ""), " ", "")
+						x.SetString(tt, 10)
+						env.vars[n] = cval{i: x}
+					}
+				}
+				if t.sort == SBool {
+					if env.eval(t).b {
+						res[t.String()] = "true"
+					} else {
+						res[t.String()] = "false"
+					}
+				}
+			}()
+		}
+		return res
+	}
+	if e.lenModel != nil {
+		// strings are determined by their lengths and the equality classes chosen by the model
+		res := map[string]string{}
+		var ask []*Term
+		for k, v := range e.lenModel {
+			_ = k
+			ask = append(ask, v)
+		}
+		for _, t := range ts {
+			if t.sort != SStr {
+				ask = append(ask, t)
+			}
+		}
+		vals := e.solver.GetValues(ask)
+		// union-find over variables the model made equal
+		parent := map[string]string{}
+		var find func(x string) string
+		find = func(x string) string {
+			if p, ok := parent[x]; ok && p != x {
+				r := find(p)
+				parent[x] = r
+				return r
+			}
+			parent[x] = x
+			return x
+		}
+		for k, v := range e.lenModel {
+			if strings.HasPrefix(k, "\x00eq\x00") && vals[v.String()] == "true" {
+				ab := strings.SplitN(strings.TrimPrefix(k, "\x00eq\x00"), "\x00", 2)
+				parent[find(ab[0])] = find(ab[1])
+			}
+		}
+		classIdx := map[string]int{}
+		for _, t := range ts {
+			if t.sort == SStr {
+				n := 0
+				if lv, ok := e.lenModel[t.name]; ok && t.op == "var" {
+					fmt.Sscanf(strings.Trim(vals[lv.String()], "() "), "%d", &n)
+				}
+				root := find(t.name)
+				ci, ok := classIdx[root]
+				if !ok {
+					ci = len(classIdx)
+					classIdx[root] = ci
+				}
+				fill := "ABCDEFGHIJKLMNOPQRSTUVWXYZabcdefghijklmnopqrstuvwxyz"
+				res[t.String()] = smtStrLit(strings.Repeat(string(fill[ci%len(fill)]), n))
+			} else {
+				res[t.String()] = vals[t.String()]
+			}
+		}
+		return res
+	}
 	if e.modelCtx == nil {
 		return e.solver.GetValues(ts)
 	}
@@ -1093,6 +1429,9 @@ func (e *Exec) runPath(entry *ssa.Function) (res *PathResult) {
 }
 
 func (e *Exec) callFunction(fn *ssa.Function, args []Value) Value {
+	if e.h.Havoc[fn.String()] || (fn.Pkg != nil && e.h.Havoc[fn.Pkg.Pkg.Name()+"."+fn.Name()]) {
+		return e.havocCall(fn, args)
+	}
 	if intr := e.w.lookupIntrinsic(fn); intr != nil {
 		return intr(e, fn, args)
 	}
@@ -1118,6 +1457,52 @@ func (e *Exec) callFunction(fn *ssa.Function, args []Value) Value {
 	e.cur = savedCur
 	e.depth--
 	return fr.result
+}
+
+// havocCall: harness-declared over-approximating stub: results are fresh
+// values determined only by the (textual) arguments; error results are nil.
+func (e *Exec) havocCall(fn *ssa.Function, args []Value) Value {
+	key := "havoc|" + fn.String()
+	for _, a := range args {
+		key += "|" + describe(a)
+	}
+	res := fn.Signature.Results()
+	mk := func(i int, t types.Type) Value {
+		switch u := under(t).(type) {
+		case *types.Basic:
+			switch {
+			case u.Info()&types.IsString != 0:
+				v, _ := e.memoFresh(fmt.Sprintf("%s#%d", key, i), "havoc", SStr)
+				return v
+			case u.Info()&types.IsInteger != 0:
+				v, _ := e.memoFresh(fmt.Sprintf("%s#%d", key, i), "havoc", SInt)
+				return v
+			case u.Info()&types.IsBoolean != 0:
+				v, _ := e.memoFresh(fmt.Sprintf("%s#%d", key, i), "havoc", SBool)
+				return v
+			}
+		case *types.Slice:
+			if b, ok := under(u.Elem()).(*types.Basic); ok && b.Kind() == types.Uint8 {
+				v, _ := e.memoFresh(fmt.Sprintf("%s#%d", key, i), "havoc", SStr)
+				return &BytesVal{s: v}
+			}
+		case *types.Interface:
+			return nilIface
+		}
+		e.unsupported("havoc of result type %v", t)
+		return nil
+	}
+	switch res.Len() {
+	case 0:
+		return nil
+	case 1:
+		return mk(0, res.At(0).Type())
+	}
+	vs := make([]Value, res.Len())
+	for i := range vs {
+		vs[i] = mk(i, res.At(i).Type())
+	}
+	return &TupleVal{vs}
 }
 
 func (e *Exec) runFrame(fr *Frame) {
